@@ -146,10 +146,10 @@ class Gro(Adapter):
 
         def check(d):
             bad = []
-            f32 = 2.0**-23
+            f32 = 2.0**-50  # the reader keeps double precision (fa4f07a); earlier float32 storage lost printed digits
             pos = np.array([[F.fx_float(p, 3) for p in a[3]] for a in atoms]).reshape(natom, 3)
             vel = np.array([[F.fx_float(v, 4) for v in a[4]] for a in atoms]).reshape(natom, 3)
-            # the reader stores float32: tolerance = float32 rounding of value and of the unit product
+            # tolerance: double rounding of value and of the unit product
             if not np.all(np.abs(d.atcoords / nanometer - pos) <= 2 * f32 * np.abs(pos) + 1e-30):
                 bad.append("atcoords")
             if not np.all(np.abs(d.extra["velocities"] / (nanometer / picosecond) - vel) <= 2 * f32 * np.abs(vel) + 1e-30):
@@ -333,5 +333,90 @@ class Poscar(Adapter):
         return bad
 
 
+class ExtXyz(Adapter):
+    """C03 for extended XYZ (ASE): `Lattice="ax ay az bx by bz cx cy cz"` (rows are the cell vectors a, b, c, in angstrom),
+    `Properties=species:S:1:pos:R:3[:force:R:3][:masses:R:1][:<user>:I|R:n]`, `energy=`, `charge=`; force = -gradient"""
+
+    key = fmt = "extxyz"
+
+    def spec_case(self, rng, natom, i):
+        from iodata.utils import amu
+
+        sym = _symbols()
+        ang = _units()
+        natom = min(natom, 1001)
+        lattice = [F.rand_fx(rng, 10, rng.choice([1, 2, 3])) for _ in range(9)] if i % 4 != 3 else None
+        force = i % 2 == 0
+        masses = i % 3 == 0
+        user = i % 5 == 0
+        energy = F.rand_fx(rng, 10, 4) if i % 3 != 1 else None
+        atoms = []
+        for k in range(natom):
+            z = (i * 5 + k) % 118 + 1
+            atoms.append({"z": z, "pos": [F.rand_fx(rng, 10, rng.choice([1, 2, 4]), None, False) for _ in range(3)],
+                          "force": [F.rand_fx(rng, 10, 2) for _ in range(3)], "mass": (False, rng.randint(10**10, 3 * 10**12)),
+                          "tag": rng.randint(-99, 99), "variant": rng.randint(0, 2)})
+        props = "species:S:1:pos:R:3" + (":force:R:3" if force else "") + (":masses:R:1" if masses else "") + (":tag:I:1" if user else "")
+        sep = lambda: rng.choice([" ", "  ", "   "])  # noqa: E731
+        title = []
+        if lattice is not None:
+            title.append('Lattice="' + " ".join(dec_text(v, 10) for v in lattice) + '"')
+        title.append("Properties=" + props)
+        if energy is not None:
+            title.append("energy=" + dec_text(energy, 10))
+        rng.shuffle(title)
+        L = [str(natom), " ".join(title)]
+        for a in atoms:
+            s = sym[a["z"]]
+            w = [[s, s.upper(), s.lower()][a["variant"]], *(dec_text(v, 10) for v in a["pos"])]
+            if force:
+                w += [dec_text(v, 10) for v in a["force"]]
+            if masses:
+                w.append(dec_text(a["mass"], 10))
+            if user:
+                w.append(str(a["tag"]))
+            L.append(sep().join(w))
+        raw = ("\n".join(L) + "\n").encode()
+
+        def check(d):
+            bad = []
+            if [int(v) for v in d.atnums] != [a["z"] for a in atoms]:
+                bad.append("atnums")
+            for k, a in enumerate(atoms):
+                if [F.fx_quant(d.atcoords[k, j], 10, ang) for j in range(3)] != a["pos"]:
+                    bad.append("atcoords")
+                    break
+                if force and [F.fx_quant(-d.atgradient[k, j], 10) for j in range(3)] != [(n and m != 0, m) if m == 0 else (n, m) for n, m in a["force"]]:
+                    if [abs_fx(F.fx_quant(-d.atgradient[k, j], 10)) for j in range(3)] != [abs_fx(v) for v in a["force"]] or any(
+                        (F.fx_quant(-d.atgradient[k, j], 10)[0] != a["force"][j][0]) and a["force"][j][1] != 0 for j in range(3)
+                    ):
+                        bad.append("atgradient")
+                        break
+                if masses and F.fx_quant(d.atmasses[k], 10, amu) != a["mass"]:
+                    bad.append("atmasses")
+                    break
+                if user and int(d.extra["tag"][k]) != a["tag"]:
+                    bad.append("extra:tag")
+                    break
+            if lattice is not None:
+                if d.cellvecs is None or d.cellvecs.shape != (3, 3):
+                    bad.append("cellvecs:missing")
+                else:
+                    got = [F.fx_quant(d.cellvecs[r, c], 10, ang) for r in range(3) for c in range(3)]
+                    if [abs_fx(v) for v in got] != [abs_fx(v) for v in lattice] or any(g[0] != w[0] and w[1] != 0 for g, w in zip(got, lattice)):
+                        bad.append("cellvecs:Lattice-rows")
+            if energy is not None and (d.energy is None or abs_fx(F.fx_quant(d.energy, 10)) != abs_fx(energy)
+                                       or (F.fx_quant(d.energy, 10)[0] != energy[0] and energy[1] != 0)):
+                bad.append("energy")
+            return bad
+
+        cls = f"natom={_cls_n(natom)}/lattice={int(lattice is not None)}/force={int(force)}/masses={int(masses)}/user={int(user)}"
+        return raw, check, cls
+
+
+def abs_fx(v):
+    return v[1]
+
+
 SEARCH_ONLY = {a.key: a for a in [Mol2(), CubeA(), Fcidump(), Poscar()]}
-SPEC_ONLY = {a.key: a for a in [Gro(), Mol2()]}
+SPEC_ONLY = {a.key: a for a in [Gro(), Mol2(), ExtXyz()]}
